@@ -105,7 +105,9 @@ def gen_tree(rng, small_files, fatal_files=()):
             if r < 0.45:
                 nm = C_NAMES[rng.randrange(len(C_NAMES))]
                 if nm not in node:
-                    if fatal_files and rng.random() < 0.08:
+                    if rng.random() < 0.06:
+                        node[nm] = rng.choice(["", "", "\n", " "])      # a source of zero bytes (or one): still a requested source
+                    elif fatal_files and rng.random() < 0.08:
                         node[nm] = "@" + fatal_files[rng.randrange(len(fatal_files))]
                     else:
                         node[nm] = "@" + small_files[rng.randrange(len(small_files))]
@@ -130,6 +132,14 @@ def gen_tree(rng, small_files, fatal_files=()):
     return build(0)
 
 
+def leaves(tree, prefix=""):
+    for k, v in sorted(tree.items()):
+        if isinstance(v, dict):
+            yield from leaves(v, prefix + k + "/")
+        else:
+            yield prefix + k, v
+
+
 def all_paths(tree, prefix=""):
     out = []
     for k, v in sorted(tree.items()):
@@ -144,7 +154,7 @@ class C15(Engine):
     prop = "C15"
     name = "cli-sim"
     level = "exploration"
-    expected_kinds = {"device_link_named_like_a_source", "git_located_through_environment", "listing_perm", "gitignore", "git_rc128", "git_missing", "enoent_toctou", "missing_path", "bad_suffix",
+    expected_kinds = {"zero_byte_source", "device_link_named_like_a_source", "git_located_through_environment", "listing_perm", "gitignore", "git_rc128", "git_missing", "enoent_toctou", "missing_path", "bad_suffix",
                       "dir_arg", "no_arg", "dir_named_like_c", "same_twice"}
     rule_text = ("Per run a seeded model tree (depth <= 4, <= 25 entries; names with spaces, interior dots, look-alike suffixes, empty "
                  "directories, non-C files, directories whose own name ends in .c/.h) is materialised on a real scratch file system and "
@@ -439,6 +449,8 @@ class C15(Engine):
             self.fire("listing_perm")
         if (sc["ops"][0].get("git") or {}).get("needs_env"):
             self.fire("git_located_through_environment")
+        if any(isinstance(v, str) and v == "" and is_c(p.rsplit("/", 1)[-1]) for p, v in leaves(sc.get("tree") or {})):
+            self.fire("zero_byte_source")
         if "->/dev/null" in json.dumps(sc.get("tree")):
             self.fire("device_link_named_like_a_source")
         if m["gitignore"]:
